@@ -26,6 +26,7 @@ fn show_bool(r: Option<bool>) -> String {
 fn parse_flips(x: &str) -> Vec<bool> { if x == "~" { vec![] } else { x.chars().map(|c| c == '1').collect() } }
 
 pub fn run(key: &str, a: &[String], out: &mut Out) {
+    out.begin(key, a);
     match key {
         "C11.sel" | "C11.nc" => {
             let b = Bdd::from_string(&a[0]);
